@@ -5,6 +5,7 @@ import (
 	"encoding/json"
 	"fmt"
 	"math/big"
+	"sort"
 	"sync"
 
 	"github.com/gcash/bchutil/hdkeychain"
@@ -412,6 +413,48 @@ func runC04(c *mc.Ctx) {
 		w.State()
 		c04EvalPath(w, below[i])
 	})
+
+	// (b2) deep scan by the reference alone: hardened children need no point multiplication in the
+	// reference (k_child = IL + k_par mod n), so 2^20 (2^22) of them per master are scanned for
+	// scalars with TWO or more leading zero bytes (1 in 65536); each hit and its hardened and
+	// non-hardened children and grandchildren then go through the full comparison.
+	{
+		scanN := int64(mc.Pick(c, 1<<20, 1<<22))
+		var deep []c04Path
+		var dmu sync.Mutex
+		for _, s := range seeds[:2] {
+			s := s
+			m, _, _ := c04RefMaster(mc.UnHex(s))
+			c.Space(fmt.Sprintf("reference-only scan of hardened children of master %s.. for scalars with >= 2 leading zero bytes", s[:8]), scanN)
+			c.ParFor(scanN, func(w *mc.W, i int64) {
+				idx := uint32(i) | 1<<31
+				k, _, ok := ref.HardenedChildScalar(m.K, m.ChainCode, idx)
+				if ok && k.BitLen() <= 240 {
+					dmu.Lock()
+					deep = append(deep, c04Path{Net: "mainnet", Seed: s, Path: []uint32{idx}, NeuterAt: -1})
+					dmu.Unlock()
+				}
+			})
+		}
+		c.Note("nodes_with_two_leading_zero_bytes_found", len(deep))
+		var more []c04Path
+		for _, d := range deep {
+			more = append(more, d)
+			for _, i := range c04Indices {
+				more = append(more, c04Path{Net: "mainnet", Seed: d.Seed, Path: []uint32{d.Path[0], i}, NeuterAt: -1})
+				more = append(more, c04Path{Net: "mainnet", Seed: d.Seed, Path: []uint32{d.Path[0], i}, NeuterAt: 1})
+				for _, j := range []uint32{0, 1 << 31} {
+					more = append(more, c04Path{Net: "mainnet", Seed: d.Seed, Path: []uint32{d.Path[0], i, j}, NeuterAt: -1})
+				}
+			}
+		}
+		sort.Slice(more, func(a, b int) bool { return fmt.Sprint(more[a]) < fmt.Sprint(more[b]) })
+		c.Space("paths at and below nodes with two leading zero bytes", int64(len(more)))
+		c.ParFor(int64(len(more)), func(w *mc.W, i int64) {
+			w.State()
+			c04EvalPath(w, more[i])
+		})
+	}
 
 	// (c) depth-255 chains, private (alternating the index alphabet) and public (non-hardened only)
 	{
